@@ -44,13 +44,17 @@ FLAVOUR = {
     1: dict(), 2: dict(), 3: dict(cons="pure", cost="bumpy"), 4: dict(cons="mystic"), 5: dict(pen=True, cost="bumpy"),
     6: dict(mon="Monitor"), 7: dict(mon="Verbose"), 8: dict(), 9: dict(), 10: dict(), 11: dict(cost="bumpy"),
     12: dict(mon="Monitor"), 13: dict(cons="pure", pen=True, mon="Monitor"), 14: dict(term="compound", cost="bumpy"),
-    15: dict(mon="Verbose"),
+    15: dict(mon="Verbose"), 16: dict(), 17: dict(mon="Monitor", cost="bumpy"), 18: dict(cons="pure"), 19: dict(pen=True),
 }
 DESCR = {1: "plain", 2: "strict ranges", 3: "pure-python constraint", 4: "mystic.symbolic constraint", 5: "penalty",
          6: "Monitor step+evaluation monitors", 7: "quiet VerboseMonitor step+evaluation monitors", 8: "generation limit",
          9: "evaluation limit (DE kinds)", 10: "save frequency 1", 11: "save frequency 2",
          12: "save frequency 3 + evaluation monitor", 13: "ranges+constraint+penalty+monitors+save frequency 2+limit",
-         14: "compound termination Or(ChangeOverGeneration, VTR, When(VTR))", 15: "save frequency 1 + verbose monitors + limit"}
+         14: "compound termination Or(ChangeOverGeneration, VTR, When(VTR))", 15: "save frequency 1 + verbose monitors + limit",
+         16: "strict ranges + save frequency 1 + limit (the stop is a dump generation)",
+         17: "strict ranges + monitors + save frequency 2 + limit at an even generation (a dump generation)",
+         18: "strict ranges + constraint + save frequency 3 + limit at a multiple of 3",
+         19: "strict ranges + penalty + limit, no restart file"}
 
 _CACHE = {}
 _SHARED = {"scripts": None, "corrupt": None}     # inherited by forked workers (selftest only)
@@ -187,6 +191,15 @@ def seeded(seed):
 
 
 # ------------------------------------------------------------------------------------------------ execution
+def raise_limit(solver, gens, n, nw):
+    """continue a stopped run (the specification's Raised configuration): generation limit n+10, evaluation limit out of
+    reach; nw=0 as totals (new=False), nw=1 relative to the present counters (new=True) -- the same resulting limits"""
+    if nw:
+        solver.SetEvaluationLimits(generations=n + 10 - gens, evaluations=10 ** 6 - solver.evaluations, new=True)
+    else:
+        solver.SetEvaluationLimits(generations=n + 10, evaluations=10 ** 6)
+
+
 class Inst(object):
     __slots__ = ("solver", "ctx", "ctxlog", "rngAt", "how", "proj")
 
@@ -209,33 +222,43 @@ class Group(object):
         self.viol = []
         self.ref = None
         self.A = []
+        self.refs = {}
 
-    # -- the reference: an uninterrupted run, projected after every generation
-    def run_reference(self, refn):
+    # -- the reference: the uninterrupted run (driven into its stop, limit raised, continued -- as TLC's reflog says),
+    # -- projected after every one of its commands
+    def _drive(self, refops, nw, check):
         s = make_solver(self.kind, self.attrs, self.fileR, self.seed, self.NP)
         ctx = getrng()
-        A = []
-        for g in range(refn):
+        out = []
+        g = -1
+        for m, c in enumerate(refops):
             setrng(ctx)
-            c0, e0 = U.CALLS[0], s.evaluations
-            s.Step()
+            if c == "step":
+                c0, e0 = U.CALLS[0], s.evaluations
+                s.Step()
+                g += 1
+                if check and s.evaluations - e0 != U.CALLS[0] - c0:
+                    self.report("counts:%s:reference" % self.kind, None, None,
+                                "reference run: evaluations moved by %d, real calls %d at generation %d" % (
+                                    s.evaluations - e0, U.CALLS[0] - c0, g))
+            else:
+                raise_limit(s, g, self.n, nw)
             ctx = getrng()
-            if s.evaluations - e0 != U.CALLS[0] - c0:
-                self.report("counts:%s:reference" % self.kind, None, None,
-                            "reference run: evaluations moved by %d, real calls %d at generation %d" % (
-                                s.evaluations - e0, U.CALLS[0] - c0, g))
-            A.append(project(s, self.kind))
-        self.ref, self.A = s, A
-        # premise "same configuration and generator state => same run": the reference must be reproducible
-        s2 = make_solver(self.kind, self.attrs, self.fileR, self.seed, self.NP)
-        ctx = getrng()
-        for g in range(refn):
-            setrng(ctx)
-            s2.Step()
-            ctx = getrng()
-            if project(s2, self.kind) != A[g]:
-                raise RuntimeError("reference run of %s setting %s is not reproducible at generation %d: %s" % (
-                    self.kind, self.attrs["id"], g, diff(project(s2, self.kind), A[g])))
+            out.append(project(s, self.kind))
+        return s, out
+
+    def reference(self, refops, nw):
+        key = (tuple(refops), nw)
+        if key not in self.refs:
+            s, A = self._drive(refops, nw, True)
+            # premise "same configuration and generator state => same run": the reference must be reproducible
+            s2, A2 = self._drive(refops, nw, False)
+            for m in range(len(A)):
+                if A[m] != A2[m]:
+                    raise RuntimeError("reference run of %s setting %s is not reproducible at command %d: %s" % (
+                        self.kind, self.attrs["id"], m, diff(A[m], A2[m])))
+            self.refs[key] = (s, A)
+        self.ref, self.A = self.refs[key]
 
     def report(self, key, sc, at, what, extra=None):
         self.viol.append((key, {"kind": self.kind, "setting": self.attrs, "setting_means": DESCR[self.attrs["id"]],
@@ -245,8 +268,8 @@ class Group(object):
     # -- one script
     def run_script(self, sc):
         kind = self.kind
-        hdrtxt = "%s setting %d (%s) k=%d path=%s rng=%s mode=%s" % (
-            kind, sc["sid"], DESCR[sc["sid"]], sc["k"], sc["path"], sc["rng"], sc["mode"])
+        hdrtxt = "%s setting %d (%s) k=%d%s path=%s rng=%s mode=%s" % (
+            kind, sc["sid"], DESCR[sc["sid"]], sc["k"], " (AT THE STOP)" if sc["atstop"] else "", sc["path"], sc["rng"], sc["mode"])
         for f in (self.fileP, self.fileF):
             if os.path.exists(f):
                 os.remove(f)
@@ -256,16 +279,7 @@ class Group(object):
         insts[2] = o
         dbytes = [None]
         claims = 0
-        # the original runs to the interruption point k (compared with the reference on the way: same premise)
-        for g in range(sc["k"] + 1):
-            setrng(o.ctx)
-            o.solver.Step()
-            o.ctx = getrng()
-            o.ctxlog[g] = o.ctx
-        o.proj = project(o.solver, kind)
-        if o.proj != self.A[sc["k"]]:
-            raise RuntimeError("%s: original differs from the reference before the checkpoint: %s" % (
-                hdrtxt, diff(o.proj, self.A[sc["k"]])))
+        self.reference(sc["refops"], sc["nw"])
 
         for n, op in enumerate(sc["ops"]):
             c, x, y = op["c"], op["x"], op["y"]
@@ -327,6 +341,11 @@ class Group(object):
                 elif c == "relimit":
                     b = insts[x]
                     b.solver.SetEvaluationLimits(generations=y, evaluations=b.solver._maxfun)
+                elif c == "raise":
+                    b = insts[x]
+                    setrng(b.ctx)
+                    raise_limit(b.solver, op["g"], self.n, sc["nw"])
+                    b.ctx = getrng()
                 else:
                     raise RuntimeError("unknown command %r" % (op,))
             except RuntimeError:
@@ -348,12 +367,14 @@ class Group(object):
             # equal to the uninterrupted run where the specification says so
             if op["r"] >= 0:
                 claims += 1 if (c == "step" and x >= 3) else 0
+                if op["r"] >= len(self.A):
+                    raise RuntimeError("%s: reference index %d out of range" % (where, op["r"]))
                 d = diff(b.proj, self.A[op["r"]])
                 if d:
                     cls = "resume" if b.how.startswith("restored") else "copy-resume" if b.how == "deepcopy" else "original"
                     self.report("%s:%s:%s:%s:%s" % (cls, kind, path, c, "+".join(d[:4])), sc, n,
-                                "%s: instance %d (%s) differs from the uninterrupted run at generation %d in: %s"
-                                % (where, x, b.how, op["r"], ", ".join(d)),
+                                "%s: instance %d (%s) differs from the uninterrupted run (after its command #%d, generation %d) in: %s"
+                                % (where, x, b.how, op["r"], self.A[op["r"]]["generations"], ", ".join(d)),
                                 {"generations": b.proj["generations"], "evaluations": b.proj["evaluations"],
                                  "reference_evaluations": self.A[op["r"]]["evaluations"]})
             for z in op["e"]:
@@ -365,7 +386,7 @@ class Group(object):
                                 % (where, x, b.how, z, zhow, ", ".join(d)))
             # Independence: nobody else moved; Save / generator commands do not move the instance itself either
             for i, bb in insts.items():
-                if i not in before or (i == x and c in ("step", "relimit")):
+                if i not in before or (i == x and c in ("step", "relimit", "raise")):
                     continue
                 d = diff(bb.proj, before[i])
                 if d:
@@ -404,7 +425,7 @@ def run_group(job):
     corrupt = _SHARED["corrupt"]
     t0 = time.time()
     res = {"kind": kind, "sid": sid, "viol": [], "scripts": 0, "claims": 0, "nontrivial": [], "mc": None, "sample": None,
-           "steps": 0}
+           "steps": 0, "atstop": 0}
     if scripts_in is None:
         r = run_tlc(GEN, cfg="Gen_Checkpoint_%s.cfg" % tier, workers=1, timeout=3000, heap="3g",
                     env={"C06_KIND": kind, "C06_SID": sid, "C06_N": n})
@@ -431,8 +452,6 @@ def run_group(job):
     try:
         with contextlib.redirect_stdout(devnull):
             g = Group(kind, attrs, head["n"], head["np"], seed * 7919 + 11, scratch)
-            if scripts:
-                g.run_reference(scripts[0]["refn"])
             for sc in scripts:
                 if sc["kind"] != kind or sc["sid"] != sid:
                     raise RuntimeError("script of another group")
@@ -441,16 +460,21 @@ def run_group(job):
                 res["claims"] += claims
                 res["steps"] += sum(1 for op in sc["ops"] if op["c"] == "step")
                 if claims:
-                    res["nontrivial"].append((kind, sid, sc["k"], sc["path"], sc["rng"], sc["mode"]))
+                    res["nontrivial"].append((kind, sid, sc["k"], sc["path"], sc["rng"], sc["mode"], sc["nw"],
+                                              len(sc["ops"])))
+                    if sc["atstop"]:
+                        res["atstop"] += 1
     finally:
         devnull.close()
         shutil.rmtree(scratch, ignore_errors=True)
     res["viol"] = g.viol[:400]
     res["nviol"] = len(g.viol)
     if scripts:
-        sc = scripts[len(scripts) // 2]
+        stops = [x for x in scripts if x["atstop"] and x["path"] == "P"]
+        sc = stops[0] if stops else scripts[len(scripts) // 2]
         res["sample"] = {"kind": kind, "setting": DESCR[sid], "k": sc["k"], "path": sc["path"], "rng": sc["rng"],
-                         "mode": sc["mode"], "commands_with_spec_verdicts": sc["ops"][:7]}
+                         "mode": sc["mode"], "checkpoint_at_the_stop": sc["atstop"], "reference_commands": sc["refops"],
+                         "commands_with_spec_verdicts": sc["ops"][max(0, sc["k"] - 1):sc["k"] + 7]}
     res["wall_s"] = round(time.time() - t0, 1)
     return res
 
@@ -463,16 +487,18 @@ VARIANTS = [   # refuted design -> properties TLC must violate for it
     ("copy_shares_counter", ["Independence", "CopyCounts"]),
     ("copy_detached_counter", ["CopyCounts"]),
     ("dump_midstep", ["ResumeEquivalence"]),
+    ("forced_dump_skipped", ["ResumeEquivalence"]),
 ]
 WITNESSES = ["NeverResumedCompared", "NeverCopyCompared", "NeverPeriodicRestore", "NeverUnrestored", "NeverPerturbed",
-             "NeverForcedDump", "NeverTwoFromOne"]
+             "NeverForcedDump", "NeverTwoFromOne", "NeverStopRestoredContinued", "NeverStopRestoredNonDividing"]
 
 
 def design_runs(tier, jobs):
     """list of (name, module, cfg, workers, expectation) -- expectation None = must pass, else set of acceptable names"""
     runs = [("MC_Checkpoint(%s)" % tier, "MC_Checkpoint_%s.cfg" % tier, min(jobs, 4), None)]
     if tier == "thorough":
-        runs.append(("MC_Checkpoint(thorough, 4 settings)", "MC_Checkpoint_thoroughT.cfg", min(jobs, 4), None))
+        runs.append(("MC_Checkpoint(thorough, 3 further settings)", "MC_Checkpoint_thoroughT.cfg", min(jobs, 4), None))
+        runs.append(("MC_Checkpoint(the stop: restore at the stop, raise, continue)", "MC_Checkpoint_thoroughS.cfg", min(jobs, 4), None))
         runs.append(("MC_Checkpoint(4 instances)", "MC_Checkpoint_thorough4.cfg", min(jobs, 4), None))
     for d, props in VARIANTS:
         for p in props:
@@ -556,6 +582,25 @@ def explore(ck, a, only=None, design=True):
     # heavy groups first (Powell pickles large evaluation monitors)
     groups.sort(key=lambda g: (g[0] != "PW", g[1]))
     jl = [(k, sid, tier, a.seed, n) for k, sid, n in groups]
+    pregen = []
+    if tier == "quick" and _SHARED["scripts"] is None:
+        # quick: one TLC run per solver kind (all settings) instead of one per group -- JVM start-up dominates there
+        from concurrent.futures import ThreadPoolExecutor
+        kinds = sorted(set(g[0] for g in groups))
+
+        def gen(kind):
+            return kind, run_tlc(GEN, cfg="Gen_Checkpoint_quick.cfg", workers=1, timeout=3000, heap="3g",
+                                 env={"C06_KIND": kind, "C06_N": groups[0][2]})
+        cache = {}
+        with ThreadPoolExecutor(min(len(kinds), jobs)) as ex:
+            for kind, r in ex.map(gen, kinds):
+                pregen.append((kind, r))
+                for sc in r.printed[1:]:
+                    cache.setdefault((kind, sc["sid"]), [r.printed[0]]).append(sc)
+        _SHARED["scripts"] = cache
+        own_cache = True
+    else:
+        own_cache = False
     nproc = max(1, min(len(jl), jobs - (3 if design else 0)))
     pool = mp.get_context("fork").Pool(nproc) if nproc > 1 else None      # fork before any thread exists
     th = None
@@ -576,8 +621,15 @@ def explore(ck, a, only=None, design=True):
             pool.join()
         if th:
             th.join()
+    if own_cache:
+        _SHARED["scripts"] = None
     if failed:
         raise failed[0]
+    for kind, r in pregen:
+        ck.mc(r, "Gen_Checkpoint[%s, all quick settings]" % kind)
+        if r.violated:
+            ck.violation("spec:gen:" + r.violated, {"tlc": r.out[-3000:]},
+                         "TLC: %s violated in Gen_Checkpoint for %s" % (r.violated, kind))
     nsteps = 0
     for res in results:
         if res["mc"]:
@@ -592,7 +644,7 @@ def explore(ck, a, only=None, design=True):
         nsteps += res["steps"]
         for key, detail, what in res["viol"]:
             ck.violation(key, detail, what)
-        if res["sample"] and (res["kind"], res["sid"]) in (("PW", 13), ("DE", 11), ("NM", 2), ("DE2", 9)):
+        if res["sample"] and (res["kind"], res["sid"]) in (("NM", 16), ("DE", 17), ("PW", 13), ("DE2", 9)):
             ck.sample(res["sample"])
     if design:
         # copy.copy is a shallow copy: it shares the counter cell and the monitors with the original by construction
@@ -605,6 +657,10 @@ def explore(ck, a, only=None, design=True):
     ck.extra["scripts"] = sum(r["scripts"] for r in results)
     ck.extra["steps_compared_after_checkpoint"] = nsteps
     ck.extra["claims_equal_to_uninterrupted_run"] = sum(r["claims"] for r in results)
+    nstop = sum(r["atstop"] for r in results)
+    ck.extra["scripts_restoring_the_checkpoint_taken_at_the_stop_and_continuing"] = nstop
+    if results and not nstop and not only:
+        ck.violation("spec:unreachable:atstop", {}, "no script restores a checkpoint taken at the stop of a run and continues it")
     ck.extra["settings"] = {str(c["id"]): DESCR[c["id"]] for c in head["catalogue"]}
     ck.extra["run_length_n(kind,setting)"] = {"%s,%d" % (k, sid): n for k, sid, n in groups}
     ck.extra["slowest_groups"] = sorted(((r["wall_s"], r["kind"], r["sid"]) for r in results), reverse=True)[:6]
@@ -641,7 +697,7 @@ def selftest(a):
     from mystic.monitors import Monitor
     AS, PW, DE = AS_.AbstractSolver, SO.PowellDirectionalSolver, DEM.DifferentialEvolutionSolver
     a2 = types.SimpleNamespace(tier="quick", seed=a.seed, jobs=min(a.jobs, 6))
-    sel = lambda g: g[1] in (1, 2, 11, 13)
+    sel = lambda g: g[1] in (1, 2, 11, 13, 16)
     # scripts do not depend on the mutant: generate them once
     head, groups = groups_for("quick")
     cache = {}
@@ -726,6 +782,11 @@ def selftest(a):
                                "        self._stepmon(self.bestSolution[:], self.bestEnergy, self.id)\n        # if savefrequency matches, then save state\n        self._AbstractSolver__save_state()\n",
                                "        self._AbstractSolver__save_state()\n        self._stepmon(self.bestSolution[:], self.bestEnergy, self.id)\n")))
 
+    muts.append(("the forced dump at the stop is skipped when the periodic dump fired at this generation (seeded C06b)",
+                 lambda: patch(AS, "_AbstractSolver__save_state",
+                               "        if force and bool(self._state):\n            self.SaveSolver()\n            return\n",
+                               "        if force:\n            if bool(self._state) and not (bool(self._saveiter) and not bool(self.generations % self._saveiter)):\n                self.SaveSolver()\n            return\n")))
+
     def m_monid():
         def getstate(self):
             d = dict(self.__dict__)
@@ -787,7 +848,6 @@ def replay(a):
     try:
         g = Group(d["kind"], d["setting"], d["n"], d["NP"], d["seed"], scratch)
         with contextlib.redirect_stdout(io.StringIO()):
-            g.run_reference(sc["refn"])
             g.run_script(sc)
     finally:
         shutil.rmtree(scratch, ignore_errors=True)
